@@ -42,7 +42,7 @@ inductive Val where
 inductive Loc where
   | abs (ofs : Nat)
   | rel (base ofs : Nat)
-  deriving Repr, DecidableEq, BEq
+  deriving Repr, DecidableEq
 
 /-- what the library logs first when an operation fails (internal projection of the tie) -/
 inductive CfErr where
